@@ -17,6 +17,28 @@ CHECKS = {
             'gevent loop replaced by the virtual-time loop; exact clock; 0.01 s resolution checked with 1 ms tolerance',
             'Hypothesis op-list state machine vs reference schedule on a virtual gevent clock',
             '5/C10', 'simkernel'),
+    'C17': ('exploration',
+            'All outcome / pre-completion / completion-order assignments of WhenAll and WhenAny up to n=4 (quick) or n=5 '
+            '(thorough), all Unwrap chains up to depth 3/4 and all ContinueWith / Map variants are enumerated completely '
+            '(exhaustive: true for that sub-space) and larger ones (n <= 8, depth <= 6) are generated; the combined result '
+            'is compared with the specification after every completion step.',
+            'inputs complete once; at least one input; completion order among inputs already complete at call time is unobservable',
+            'exhaustive enumeration of small completion spaces + Hypothesis for larger, vs executable specification',
+            '5/C17', 'pbt'),
+    'C18': ('exploration',
+            'Generated metric update sequences through freshly constructed equal Source objects are compared with a '
+            'dictionary model (sums, last gauge, series count = distinct sources, percentile range/monotonicity), plus N '
+            'calls through a real MessageDispatcher on a stub sink. Held on every generated sequence.',
+            'one field tuple per aggregation key for gauges/percentiles; relative tolerance 1e-9 on percentiles',
+            'Hypothesis update sequences vs dictionary model; end-to-end series-count bound',
+            '5/C18', 'pbt'),
+    'C20': ('exploration',
+            'Generated interface classes (underscore-decorated, inherited and overriding methods, varied signatures) are '
+            'proxied and called against a recording stub dispatcher with identity checks on every forwarded argument and '
+            'returned result; generated tcp/zk/other URIs are parsed and compared with the generated endpoint list.',
+            'plain instance methods only; no m/m_async pairs; no IPv6 literals; ZooKeeper hosts compared as case-insensitive multiset',
+            'Hypothesis-generated classes and URIs vs identity oracle on a stub dispatcher',
+            '5/C20', 'pbt'),
 }
 
 NOT_YET = 'check not built yet in this stage of the build (planned in DESIGN.md section 5)'
